@@ -195,3 +195,6 @@ def run(ctx):
     ctx.floor('C18.r5', 'construction of Status::Pending in get_transaction', len(pend), 1)
     ctx.guard('C18.r5', G, 'PendingTxs::get', 'Some', pend)
     ctx.guard('C18.r5', G, 'Storage::get_transaction_with_header', 'None', pend)
+    # reviewed reference (engine/census.py)
+    from rules import census_fns
+    census_fns.run(ctx, 'C18')
